@@ -52,9 +52,13 @@ func main() {
 	noEvidence := flag.Bool("no-evidence", false, "do not write evidence")
 	verbose := flag.Bool("v", false, "verbose")
 	workFlag := flag.String("workdir", "", "scratch directory for SMT files (default <verif>/work/<prop>)")
+	replayFile := flag.String("replay", "", "re-run the replay recorded in this file against the real code")
 	flag.Parse()
 	if t := os.Getenv("VERIF_TIER"); t != "" {
 		*tier = t
+	}
+	if *replayFile != "" {
+		os.Exit(rerunReplay(*replayFile, *repo, *verif, *prop))
 	}
 	seed := 0
 	fmt.Sscanf(os.Getenv("VERIF_SEED"), "%d", &seed)
@@ -182,7 +186,7 @@ func main() {
 		return
 	}
 
-	eng := &Engine{prog: prog, db: db, prop: *prop, cfg: cfg, obls: map[string]*Obligation{}, immutableHeap: map[string]bool{}}
+	eng := &Engine{prog: prog, db: db, prop: *prop, cfg: cfg, obls: map[string]*Obligation{}, immutableHeap: map[string]bool{}, fnByShort: map[string]fnEntry{}, replayCache: map[string]*replayResult{}}
 	eng.checkImmutables(fnIndex)
 	type fnReport struct {
 		Func        string `json:"func"`
@@ -203,6 +207,10 @@ func main() {
 		}
 		if c.Trusted {
 			continue
+		}
+		{
+			pk, key := funcKey(fn)
+			eng.fnByShort[shortPkg(pk)+"."+key] = fnEntry{fn, c}
 		}
 		if ps.Mode == "both" {
 			eng.both = true
@@ -340,7 +348,7 @@ func main() {
 			rec["solver"] = ob.Solver
 			rec["smt_file"] = ob.SMTFile
 			rec["solver_output"] = truncate(ob.Model, 6000)
-			if ob.Status == "refuted" {
+			if ob.Status == "refuted" || ob.Status == "unknown" {
 				reproduced = tryReplay(eng, ob, rec, *repo, *verif)
 			}
 		}
